@@ -9,7 +9,7 @@ CONSTANTS
   Clients_ = {"c1", "c2", "c3"}
   LockKeys_ = {"l/1", "m/1"}
   MaxVer = 1
-  MaxAcq = 3
+  MaxAcq = 2
   MaxSubs = 0
   NeedConnect = TRUE
 CONSTRAINT Bound
